@@ -3,7 +3,7 @@ sys.path.insert(0, os.path.dirname(os.path.abspath(__file__)))
 import seqfam, vlib
 
 WIN = os.path.join(vlib.VERIF, "spec", "win")
-ASSUME = ["STATETTL unset (no key state is reaped)", "single producer, rows fed in lock-step (one row fully processed before the next)",
+ASSUME = ["STATETTL unset (no key state is reaped)", "single producer, rows fed in lock-step (one row fully processed before the next), plus bursts of 70-130 rows against a held window goroutine",
           "window output buffer never overflows", "results observed through a synchronous sink"]
 NIL = "<NIL>"
 
@@ -62,6 +62,27 @@ def run(tier):
         keys = [("k%d" % i,) for i in range(rng.choice([1, 2, 5, 9]))]
         L = rng.choice([n * 6, n * 7 + 1, 23, 40])
         scen.append(scenario(n, [rng.choice(keys) for _ in range(L)], rng, "mix"))
+    # HAVING on top of the counting window: a batch the predicate rejects is consumed all the same; the key's next batch starts from empty
+    for _ in range(60 if quick else 600):
+        n = rng.choice([2, 3])
+        keys = [("k%d" % i,) for i in range(rng.choice([1, 2, 3]))]
+        sc = scenario(n, [rng.choice(keys) for _ in range(rng.choice([n * 5, n * 6 + 1, 17]))], rng, "mix")
+        txt, ast = rng.choice([("sum(v) > 3", {"o": "cmp", "fn": "sum", "arg": {"k": "col", "c": "v"}, "op": ">", "lit": 30000}),
+                               ("max(v) >= 3", {"o": "cmp", "fn": "max", "arg": {"k": "col", "c": "v"}, "op": ">=", "lit": 30000}),
+                               ("min(v) < 0", {"o": "cmp", "fn": "min", "arg": {"k": "col", "c": "v"}, "op": "<", "lit": 0}),
+                               ("sum(v) <= 2", {"o": "cmp", "fn": "sum", "arg": {"k": "col", "c": "v"}, "op": "<=", "lit": 20000})])
+        sc["sql"] += " HAVING " + txt
+        sc["meta"]["having"] = ast
+        scen.append(sc)
+    # bursts: the producer outruns the counting-window goroutine (held at its first row) by more rows than the window's
+    # input queue holds (50 by default): every row still counts, in order
+    for _ in range(8 if quick else 60):
+        n = rng.choice([2, 3, 5])
+        keys = [("k%d" % i,) for i in range(rng.choice([1, 2, 4]))]
+        sc = scenario(n, [rng.choice(keys) for _ in range(rng.choice([70, 90, 130]))], rng, "mix")
+        sc["burst"] = True
+        sc["hold"] = "cw.row"
+        scen.append(sc)
     seqfam.run_scenarios(res, scen, "TraceBatch", tag="batch")
     res.cov["distinct_nontrivial"] = len({json.dumps(s["rows"], sort_keys=True) + s["sql"] for s in scen if len(s["rows"]) > 1})
     res.cov["rule"] = ("every key sequence of the TLA+ Counting model at the stated bounds (universes: plain keys, separator-like keys, NULL/missing/empty keys, two-column keys) "
